@@ -74,7 +74,8 @@ pub fn classify(m: &str) -> &'static str {
         "mprotect-failed"
     } else if m.contains("out of branch range") {
         "branch-range"
-    } else if m.starts_with("USER:") {
+    } else if m.starts_with("USER:") || m == "<non-string panic>" {
+        // the library only ever panics with a message: any other payload is the user's
         "user"
     } else {
         "other"
